@@ -33,10 +33,11 @@ claim("C04",
       "ScheduleIndependent and liveness Terminates.  Real Rejection and SMC runs on id-valued models are executed through a "
       "scheduled ClientBase (all is_ready answer scripts of a fixed length, plus seeded random schedules with out-of-order "
       "task execution); TLC validates each event log against Batches_Trace.tla (P: clauses = the five clauses of C04, "
-      "including digest equality with the sequential native-client run).",
-      "Small-scope bounds on MaxPar / consumed batches / rounds at design level; the code is bound through the ClientBase "
-      "contract only (native-style in-process execution; dask/ipyparallel clusters are not available); digests are sha256 of "
-      "the returned arrays.",
+      "including digest equality with the sequential native-client run).  The same comparison is made with the REAL multiprocessing "
+      "client (2-3 worker processes), and the real native / multiprocessing client objects are validated against ClientContract.tla - "
+      "the contract Batches.tla assumes of a client (extension, reported as drift only).",
+      "Small-scope bounds on MaxPar / consumed batches / rounds at design level (thorough adds TLC simulation beyond them); "
+      "dask/ipyparallel clusters are not available; digests are sha256 of the returned arrays.",
       "TLA+ design model checked by TLC (safety+liveness) + TLC trace validation of scheduled-client event logs", "5/C04")
 
 claim("C01",
